@@ -283,6 +283,30 @@ func RenamingsOf(p *ref.Program, maxPerms int, onlyFunc string) []Renaming {
 	return out
 }
 
+// FreshBinderRenamings renames each binding occurrence of p (one at a time, with the uses in its
+// scope) to a fresh identifier: the alpha-renamings that repair a name collision. Used on programs
+// that were made to collide on purpose (binder mutants), where verdicts must still be invariant.
+func FreshBinderRenamings(p *ref.Program) []Renaming {
+	var out []Renaming
+	nb := len(bodies(p))
+	for bi := 0; bi < nb; bi++ {
+		var sites []binderSite
+		binders(*bodies(p)[bi], &sites)
+		for si := range sites {
+			q := p.Copy()
+			var qs []binderSite
+			binders(*bodies(q)[bi], &qs)
+			old := qs[si].name()
+			if old == "self" || old == "fresh'" {
+				continue
+			}
+			qs[si].rename("fresh'")
+			out = append(out, Renaming{Desc: fmt.Sprintf("binder %s -> fresh' in body %d (site %d)", old, bi, si), P: q})
+		}
+	}
+	return out
+}
+
 func Renamings(p *ref.Program, maxPerms int) []Renaming {
 	var out []Renaming
 	// identifier pool: every channel identifier of the program (collision seeking) plus a fresh one
@@ -328,13 +352,10 @@ func Renamings(p *ref.Program, maxPerms int) []Renaming {
 			if p.Funcs[bi].Provider != "" {
 				declNames[p.Funcs[bi].Provider] = true
 			}
-		} else {
-			// a local binder may shadow the name of a top-level process that this process does not
-			// mention (no capture); its own provider names stay excluded
-			for _, n := range p.Procs[bi-len(p.Funcs)].Names {
-				declNames[n] = true
-			}
 		}
+		// a local binder of a process may shadow the name of any top-level process that the body does
+		// not mention (no capture) - including the process's own provider names: inside the body the
+		// provider is `self`, its declared names are only aliases that a binder may hide
 		var sites []binderSite
 		binders(*bodies(p)[bi], &sites)
 		for si := range sites {
